@@ -50,7 +50,7 @@ let lpans_of = function
 
 (* certified equivalence; a difference is tolerated only inside a region of the reference tree that is certified thin *)
 let equiv_mod_thin ~id ~tag n (t_impl : ptree) (t_ref : ptree) (describe : vec -> string) : bool =
-  match tree_equiv (nat_of_int n) [] t_impl t_ref with
+  match tree_equiv_x (nat_of_int n) t_impl t_ref with
   | Equal -> true
   | TUnknown -> result id "UNK" tag "kernel-unknown"; false
   | Differ x ->
